@@ -230,10 +230,24 @@ def check_case(ctx, case):
     if res is not True:
         raise Violation(f"C01/{cls}/{via}/is_isomorphic-false/{tag}",
                         f"returned {res!r}")
+    # the same graph once more as a derived object: subgraph over all atoms
+    # in another order (its internal tables are filled in other orders) and
+    # a copy of that
+    order = S.seed_tape(case["tseed"] + 5).shuffle(list(ma.atoms))
+    with guard(f"C01/{cls}/{via}/derived-by-subgraph/{tag}"):
+        d1 = a.subgraph(order)
+        d2 = d1.copy()
+    for name, x, y in (("subgraph==b", d1, b), ("b==subgraph", b, d1),
+                       ("a==subgraph", a, d1), ("copy-of-subgraph==b", d2, b)):
+        with guard(f"C01/{cls}/{via}/{name}/{tag}"):
+            res = (x == y)
+        if res is not True:
+            raise Violation(f"C01/{cls}/{via}/{name}-false/{tag}",
+                            f"{name} returned {res!r}")
 
 
 def run(ctx):
-    n = ctx.scale(6000, 320000)
+    n = ctx.scale(4000, 320000)
 
     def check(case):
         ma, rb, info, mp = derive(case)
@@ -303,4 +317,4 @@ def run(ctx):
                  + [f"hist:{k}" for k in kinds])
 
     ctx.hyp("c01-history", S.mapped(2500, gen_h), check_h,
-            ctx.scale(2500, 100000), shrinker=shrink_history)
+            ctx.scale(1500, 100000), shrinker=shrink_history)
